@@ -20,6 +20,7 @@ correspondence + monitor (the monitor replays
 import BRV.Proofs.RepoBasics
 import BRV.Spec.Stream
 import BRV.Proofs.RepoExample
+import BRV.Proofs.LinearWorld
 
 namespace BRV.Repo
 
@@ -194,5 +195,16 @@ example : NoAutoClean genesisRepo [(exH1, true), (exH2, true)] := by
     simp only [Sum.inr.injEq, Prod.mk.injEq] at hp
     obtain ⟨rfl, rfl, rfl⟩ := hp
     decide
+
+
+/-- **C07 in the linear world**: over ANY fork-free history (any length, across the automatic clean every
+    10000 heights and any Cleans and Saves in between) the headers announced to a subscriber, appended to
+    the chain the subscription started from, are exactly the best chain at the end: every accepted header
+    is announced once, in order, and nothing else is. -/
+theorem C07_linear_stream (r0 : Repo) (c0 : List HData) (k0 m0 : Nat) (h0 : PLin r0 c0 k0 m0) (ops : List LinOp)
+    (hh : LinHist r0 ops) (hnl : NoLoad ops) :
+    ∃ c : List HData, ObsChain (runOps r0 ops) c ∧ c.map (·.hdr) = c0.map (·.hdr) ++ streamOps r0 ops := by
+  obtain ⟨c, k, m, hp, hmap⟩ := stream_lin ops r0 c0 k0 m0 h0 hh hnl
+  exact ⟨c, hp.obsChain, hmap⟩
 
 end BRV.Repo
